@@ -69,7 +69,8 @@ impl Sm9EncKey {
         k_append.extend_from_slice(&c1_bytes[1..65]);
         k_append.extend_from_slice(&w_bytes);
         k_append.extend_from_slice(idb);
-        let k = kdf(&k_append, (255 + 32) as usize);
+        // klen = |C2| + |K2| (GM/T 0044.4 B3), not a fixed 255 + 32
+        let k = kdf(&k_append, data.len() - (65 + 32) + 32);
         fn is_zero(x: &Vec<u8>) -> bool {
             x.iter().all(|&byte| byte == 0)
         }
@@ -133,7 +134,8 @@ impl Sm9EncMasterKey {
             k_append.extend_from_slice(&cbuf[1..cbuf.len()]);
             k_append.extend_from_slice(gbuf);
             k_append.extend_from_slice(idb);
-            k = kdf(&k_append, (255 + 32) as usize);
+            // klen = |M| + |K2| (GM/T 0044.4 A6), not a fixed 255 + 32
+            k = kdf(&k_append, data.len() + 32);
             fn is_zero(x: &[u8]) -> bool {
                 x.iter().all(|&byte| byte == 0)
             }
